@@ -69,7 +69,9 @@ def run(ctx, model_ok, deep=False):
     ctx.notes.append("tsan build + harness: %.1fs" % (time.time() - t0))
     # keyring: (private+alg, public) pairs for every key type
     specs = [("oct", 32, "HS256"), ("oct", 64, "HS512"), ("rsa", 2048, "RS256"), ("rsa", 2048, "PS256"), ("ec", "P-256", "ES256"),
-             ("ec", "P-384", "ES384"), ("ec", "P-521", "ES512"), ("okp", "ED25519", "EdDSA"), ("okp", "ED448", "EdDSA")]
+             ("ec", "P-384", "ES384"), ("ec", "P-521", "ES512"), ("okp", "ED25519", "EdDSA"), ("okp", "ED448", "EdDSA"),
+             # secp256k1: works under OpenSSL, refused under GnuTLS -- in every thread, every time, exactly as in the sequential run
+             ("ec", "secp256k1", "ES256K")]
     items = []
     cache = {}
     for kind, param, alg in specs:
@@ -115,5 +117,5 @@ def run(ctx, model_ok, deep=False):
                     ctx.notes.append("%d ThreadSanitizer report(s) without any libjwt frame under %s/%d threads (library internals): %s" % (
                         len(reports), prov, n, reports[0].splitlines()[0][:100]))
     ctx.add_suite("threads", evaluations=ev, distinct_nontrivial=len(outs) + 1,
-                  rule="TSan build; N threads x cold starts (fresh, never used keyring each) x rounds x 9 (key, alg) pairs x {generate, verify own, verify sequential, verify corrupted}, every second verification through a callback that looks the key up by kid in the shared keyring; both providers; start skew from rand_r; distinct = (provider, N, exit status)",
+                  rule="TSan build; N threads x cold starts (fresh, never used keyring each) x rounds x 10 (key, alg) pairs (incl. ES256K, which the GnuTLS provider must refuse in every thread as it does sequentially) x {generate, verify own, verify sequential, verify corrupted}, every second verification through a callback that looks the key up by kid in the shared keyring; both providers; start skew from rand_r; distinct = (provider, N, exit status)",
                   exhaustive=False, samples=samples)
